@@ -14,7 +14,20 @@ use crate::env::Tier;
 
 pub fn dispatch(id: &str, tier: Tier, seed: u64, replay: Option<&str>) -> i32 {
     match id {
-        "C01" | "C05" | "C10" | "C12" => seqprops::run(id, tier, seed, replay),
+        "C01" | "C10" | "C12" => seqprops::run(id, tier, seed, replay),
+        "C05" => {
+            if let Some(path) = replay {
+                let text = std::fs::read_to_string(path).unwrap_or_default();
+                if text.contains("\"crash_accounting\"") {
+                    return crashprops::replay_accounting(path);
+                }
+                return seqprops::run(id, tier, seed, replay);
+            }
+            let code = seqprops::run(id, tier, seed, None);
+            let (ucode, summary) = crashprops::partition_campaign(tier, seed);
+            fold_into_evidence("C05", "partition_after_recovery", summary, "images", ucode);
+            code.max(ucode)
+        }
         "C14" => {
             if let Some(path) = replay {
                 let text = std::fs::read_to_string(path).unwrap_or_default();
